@@ -42,24 +42,33 @@ fn collect_tagged_keys(
 ) -> Result<(), Error> {
     match node {
         YamlValue::Mapping(map) => {
-            for (key, value) in map {
+            // keys lose their tag here: a mapping with tagged keys has no JSON counterpart
+            let mut untagged = serde_yaml::Mapping::with_capacity(map.len());
+            for (key, mut value) in std::mem::take(map) {
                 if let YamlValue::Tagged(tag) = &key {
-                    let key_str = tag.as_ref().tag.to_string();
+                    let key_str = tag.tag.to_string();
                     if key_str == "!sd" {
                         let new_val = tag
-                            .as_ref()
                             .value
                             .as_str()
-                            .ok_or(Error::YamlInvalidSDTag(key_str))?;
-                        let full_path = build_full_path(path, new_val);
-                        paths.push(full_path);
+                            .ok_or(Error::YamlInvalidSDTag(key_str))?
+                            .to_string();
+                        // nested paths first: the issuer hides a claim after the claims inside it
+                        path.push_back(new_val.clone());
+                        collect_tagged_keys(&mut value, path, paths)?;
+                        path.pop_back();
+                        paths.push(build_full_path(path, &new_val));
+                        untagged.insert(YamlValue::String(new_val), value);
+                        continue;
                     }
                 } else if let YamlValue::String(key) = &key {
                     path.push_back(key.to_string());
-                    collect_tagged_keys(value, path, paths)?;
+                    collect_tagged_keys(&mut value, path, paths)?;
                     path.pop_back();
                 }
+                untagged.insert(key, value);
             }
+            *map = untagged;
         }
         YamlValue::Sequence(seq) => {
             for (index, value) in seq.iter_mut().enumerate() {
